@@ -159,29 +159,36 @@ func (w *World) SetupProvider(pr *Probes) {
 
 	encoding := appProvider.MakeTestEncodingConfig()
 	app := appProvider.New(log.NewNopLogger(), db.NewMemDB(), nil, false, simtestutil.EmptyAppOptions{})
-	if pr != nil {
-		app.SetBeginBlocker(func(ctx sdk.Context) (sdk.BeginBlock, error) {
-			r, err := app.BeginBlocker(ctx)
-			if err == nil {
-				for _, f := range pr.PostBegin {
-					f(ctx)
-				}
-			}
-			return r, err
-		})
-		app.SetEndBlocker(func(ctx sdk.Context) (sdk.EndBlock, error) {
-			for _, f := range pr.PreEnd {
+	w.Calls = InstallCallRecorder(app)
+	if pr == nil {
+		pr = &Probes{}
+	}
+	app.SetBeginBlocker(func(ctx sdk.Context) (sdk.BeginBlock, error) {
+		w.Calls.ResetBlock()
+		w.Calls.InBlock = true
+		r, err := app.BeginBlocker(ctx)
+		w.Calls.InBlock = false
+		if err == nil {
+			for _, f := range pr.PostBegin {
 				f(ctx)
 			}
-			r, err := app.EndBlocker(ctx)
-			if err == nil {
-				for _, f := range pr.PostEnd {
-					f(ctx)
-				}
+		}
+		return r, err
+	})
+	app.SetEndBlocker(func(ctx sdk.Context) (sdk.EndBlock, error) {
+		for _, f := range pr.PreEnd {
+			f(ctx)
+		}
+		w.Calls.InBlock = true
+		r, err := app.EndBlocker(ctx)
+		w.Calls.InBlock = false
+		if err == nil {
+			for _, f := range pr.PostEnd {
+				f(ctx)
 			}
-			return r, err
-		})
-	}
+		}
+		return r, err
+	})
 	if err := app.LoadLatestVersion(); err != nil {
 		panic(err)
 	}
